@@ -3,7 +3,11 @@
 (* PyTrees, structures and the `isinstance(x, PyTree[L, "struct"])` check.  *)
 (*                                                                         *)
 (* Tree      [k, c, keys, shape, dt]                                        *)
-(*   containers: k \in {"tuple","list","dict","nt","cust","none"}, c = the  *)
+(*   containers: k \in {"tuple","list","dict","nt","cust","acust","none"}, c = the *)
+(*               "acust" is a registered node that is ALSO array-like (it has *)
+(*               .shape = (2,) and a float .dtype, e.g. a sparse-array wrapper): *)
+(*               for an array leaf type over `Any` it is a leaf, for every     *)
+(*               other leaf type it is a container                             *)
 (*               ("nt" = a namedtuple: it IS a tuple for tuple[...] hints)  *)
 (*               children (dict: in sorted key order, keys = the keys)      *)
 (*   atoms:      k \in {"int","str","flt","arr"} (arr: shape, dt \in {"f","i"}) *)
@@ -51,6 +55,9 @@ JaxFlatten(x) ==
         struct |-> SNode(x.k, [i \in DOMAIN x.c |-> subs[i].struct], x.keys)]
 
 DtIn(cat, dt) == cat = "s" \/ cat = dt
+\* an array leaf type is <<"arr", dims, category>> over a concrete array class, or <<"arr", dims, category, "any">> over Any
+OverAny(L) == Len(L) >= 4 /\ L[4] = "any"
+IsArrayLike(L, x) == x.k = "arr" \/ (x.k = "acust" /\ OverAny(L))
 
 (* ---- the flatten-mode ("only look at the array type") match ---- *)
 RECURSIVE TypeMatch(_, _), Discover(_, _)
@@ -59,7 +66,7 @@ TypeMatch(L, x) ==
     [] L[1] = "str" -> x.k = "str"
     [] L[1] = "tup2" -> x.k \in {"tuple", "nt"} /\ Len(x.c) = 2 /\ \A i \in 1..2 : x.c[i].k = "int"
     [] L[1] = "any" -> TRUE
-    [] L[1] = "arr" -> x.k = "arr"
+    [] L[1] = "arr" -> IsArrayLike(L, x)
     [] L[1] = "union" -> TypeMatch(L[2], x) \/ TypeMatch(L[3], x)
     [] L[1] = "tupA" -> x.k \in {"tuple", "nt"} /\ Len(x.c) = 2 /\ TypeMatch(L[2], x.c[1]) /\ x.c[2].k = "int"
     [] L[1] \in {"pt", "ptS"} ->
@@ -113,7 +120,7 @@ FullMatch(L, x, m, args, lab, fl) ==
   CASE L[1] \in {"int", "str", "tup2"} -> [r |-> IF TypeMatch(L, x) THEN "T" ELSE "F", memo |-> m]
     [] L[1] = "any" -> [r |-> "T", memo |-> m]
     [] L[1] = "arr" ->
-         IF x.k # "arr" THEN [r |-> "F", memo |-> m]
+         IF ~IsArrayLike(L, x) THEN [r |-> "F", memo |-> m]
          ELSE LET c == ArrayCheck(ParseSpec(L[2]).dims, [inst |-> TRUE, dtin |-> DtIn(L[3], x.dt), shape |-> x.shape],
                                   ArrPart(m), args, lab, fl)
               IN [r |-> c.r, memo |-> WithArr(m, c.memo)]
